@@ -179,7 +179,8 @@ def src_selection(tier, seed):
         for k, pth in enumerate(sorted(c["universe"])):
             tree.append({"path": pth, "text": "local   u%d = %d\n" % (k, k), "tag": "cand", "class": "raw"})
         if sc["ig_root"]:
-            tree.append({"path": ".styluaignore", "text": "".join(pat_text(p) + "\n" for p in sc["ig_root"]), "class": "raw"})
+            tree.append({"path": ".ignore" if sc.get("igname") == "ignore" else ".styluaignore",
+                         "text": "".join(pat_text(p) + "\n" for p in sc["ig_root"]), "class": "raw"})
         if sc["ig_src"]:
             tree.append({"path": "src/.styluaignore", "text": "".join(pat_text(p) + "\n" for p in sc["ig_src"]), "class": "raw"})
         argv = []
@@ -196,7 +197,8 @@ def src_selection(tier, seed):
         scenarios.append({"id": "sl%d" % n, "tree": tree, "argv": argv,
                           "meta": {"kind": "select", "sc": sc, "selected": sorted(c["selected"]), "maybe": sorted(c["maybe"]), "ignored": sorted(c.get("ignored", [])),
                                    "sig": "args=%s;flags=%s" % (sc["argset"], "+".join(k for k in ("respect", "allow_hidden") if sc[k]) or "none")
-                                          + (";globs=%s" % sc["globset"] if sc.get("globset", "none") != "none" else ""),
+                                          + (";globs=%s" % sc["globset"] if sc.get("globset", "none") != "none" else "")
+                                          + (";igname=.ignore" if sc.get("igname") == "ignore" else ""),
                                    "sig_ignore": pk}})
     return scenarios, st
 
